@@ -673,7 +673,8 @@ def long_decimal_cases(seed):
     pooled from wells, moved between containers: the digits given are the digits used"""
     import random
     out = []
-    for i, (v1, v2) in enumerate([('10.416666666666666', '5.208333333333333'), ('33.333333333333336', '1.2345678901'), ('0.30000000000000004', '0.1234567')]):
+    for i, (v1, v2) in enumerate([('10.416666666666666', '3.4722222222222223'),      # (a third of it: two draws leave a third, well clear of the stock)
+                                  ('33.333333333333336', '1.2345678901'), ('0.30000000000000004', '0.1234567')]):
         g = Gen(random.Random(seed * 3001 + i), kinds=('Liquid', 'Solid', 'Liquid'))
         a = g.new_container(nsub=2)
         pl = g.new_plate(rows=2, cols=3, max_ul=1000)
